@@ -24,6 +24,7 @@ func checkC13(c *Ctx) {
 	c.Rule("C13.R2", "the output is a fresh slice; every vertex appended to it is an element of the input curve, which is never written; the first append is the curve's first vertex; the exit flag is only raised right after appending the curve's last vertex and is the only way out of the scan")
 	c.Rule("C13.R3", "every vertex appended after skipping input vertices is dominated by the simplicity test of the replacing segment against kept output, remaining input and the other curves, or by adjacency to the previous kept vertex")
 	c.Rule("C13.R5", "the deviation of a skipped vertex is its distance to the replacing *segment*: the point-to-segment distance clamps the projection parameter to [0,1] and never divides 0 by 0")
+	c.Rule("C13.R6", "the segment-intersection routine behind the simplicity test is exact: a tolerance that multiplies the squared segment lengths in its parallel/collinear tests is the constant 0 (a positive one classifies a shallow crossing as parallel and reports no intersection)")
 	c.Rule("C13.R4", "Multi* Simplify methods simplify member i into index i of a fresh result over the full range; Polygon.Simplify passes the whole polygon as the other curves")
 	a := &c13{c: c, info: c.P.Pkg("geom").TypesInfo}
 	a.members()
@@ -35,6 +36,8 @@ func checkC13(c *Ctx) {
 	a.subsequence()
 	a.vetting()
 	checkSegmentDistance(c, "C13.R5")
+	a.exactCrossing()
+	c.Floor("C13.R6", 1)
 	c.Floor("C13.R5", 1)
 	c.Floor("C13.R1", 1)
 	c.Floor("C13.R2", 1)
@@ -613,4 +616,90 @@ func (a *c13) adjacencyAtom(e ast.Expr) (types.Object, ast.Expr) {
 	}
 	// j <= i+k with k<=2  ⇒  j-1 <= i+1: the candidate j-1 is i or i+1
 	return i, &ast.BinaryExpr{X: &ast.Ident{Name: j.Name()}, Op: token.SUB, Y: &ast.BasicLit{Kind: token.INT, Value: "1"}}
+}
+
+// exactCrossing: tolerances in the intersection routine reached from the simplicity test are zero.
+func (a *c13) exactCrossing() {
+	c := a.c
+	info := a.info
+	pk := c.P.Pkg("geom")
+	// the routine: a repo function returning (int, Point, Point) called from a function that the curve simplifier calls
+	ptT := c.P.NamedType("geom", "Point")
+	var routines []*types.Func
+	for _, fn := range c.P.RepoFuncs() {
+		if c.P.DeclPkg(fn) != pk {
+			continue
+		}
+		sig := fn.Type().(*types.Signature)
+		if sig.Results().Len() == 3 && types.Identical(sig.Results().At(1).Type(), ptT) && types.Identical(sig.Results().At(2).Type(), ptT) {
+			if b, ok := sig.Results().At(0).Type().Underlying().(*types.Basic); ok && b.Info()&types.IsInteger != 0 {
+				routines = append(routines, fn)
+			}
+		}
+	}
+	if len(routines) == 0 {
+		c.Unk("C13.R6", "geom#segment-intersection", token.NoPos, "no (count, Point, Point) intersection routine found")
+		return
+	}
+	for _, fn := range routines {
+		fd := c.P.Decl(fn)
+		sc := newFnScope(info, fd.Body)
+		name := c.P.FuncName(fn) + "#tolerance"
+		n := 0
+		bad := ""
+		var badPos token.Pos
+		ast.Inspect(fd.Body, func(nd ast.Node) bool {
+			b, ok := nd.(*ast.BinaryExpr)
+			if !ok {
+				return true
+			}
+			switch b.Op {
+			case token.LSS, token.LEQ, token.GTR, token.GEQ:
+			default:
+				return true
+			}
+			// a side that is a product with a tolerance factor: an identifier whose only definition is a numeric constant
+			for _, side := range []ast.Expr{b.X, b.Y} {
+				ast.Inspect(side, func(m ast.Node) bool {
+					mul, ok := m.(*ast.BinaryExpr)
+					if !ok || mul.Op != token.MUL {
+						return true
+					}
+					for _, f := range []ast.Expr{mul.X, mul.Y} {
+						id, ok := unparen(f).(*ast.Ident)
+						if !ok {
+							continue
+						}
+						o := objOf(info, id)
+						if o == nil || !isFloat64(o.Type()) {
+							continue
+						}
+						ds := sc.defs[o]
+						if len(ds) != 1 || ds[0] == nil {
+							continue
+						}
+						v := constOf(info, ds[0])
+						if v == nil {
+							continue
+						}
+						n++
+						if f64, _ := constFloat(v); f64 != 0 && bad == "" {
+							bad = fmt.Sprintf("`%s` uses the tolerance %s = %s: segments that cross at an angle with sin² below it are treated as parallel and reported as not intersecting, so the simplifier accepts a shortcut that crosses the line", src(b), id.Name, v.String())
+							badPos = b.Pos()
+						}
+					}
+					return true
+				})
+			}
+			return true
+		})
+		switch {
+		case bad != "":
+			c.Bad("C13.R6", name, badPos, "%s", bad)
+		case n == 0:
+			c.OK("C13.R6", name, fd.Pos(), "no tolerance factor in the comparisons")
+		default:
+			c.OK("C13.R6", name, fd.Pos(), "%d comparisons scaled by a tolerance, all with tolerance 0 (exact)", n)
+		}
+	}
 }
